@@ -315,8 +315,9 @@ impl<L> ClientBuilder<L> {
 		let (client_dropped_tx, client_dropped_rx) = oneshot::channel();
 		let (send_receive_task_sync_tx, send_receive_task_sync_rx) = mpsc::channel(1);
 		let manager = ThreadSafeRequestManager::new();
+		// NOTE: weak, the client must not keep the manager (and the subscriptions it owns) alive.
 		#[cfg(feature = "verif-hooks")]
-		let verif_manager = manager.clone();
+		let verif_manager = Arc::downgrade(&manager.0);
 
 		let (ping_interval, inactivity_stream, inactivity_check) = match self.ping_config {
 			None => (IntervalStream::pending(), IntervalStream::pending(), InactivityCheck::Disabled),
@@ -393,8 +394,9 @@ impl<L> ClientBuilder<L> {
 		let (client_dropped_tx, client_dropped_rx) = oneshot::channel();
 		let (send_receive_task_sync_tx, send_receive_task_sync_rx) = mpsc::channel(1);
 		let manager = ThreadSafeRequestManager::new();
+		// NOTE: weak, the client must not keep the manager (and the subscriptions it owns) alive.
 		#[cfg(feature = "verif-hooks")]
-		let verif_manager = manager.clone();
+		let verif_manager = Arc::downgrade(&manager.0);
 
 		let ping_interval = PendingIntervalStream::pending();
 		let inactivity_stream = PendingIntervalStream::pending();
@@ -451,9 +453,9 @@ pub struct Client<L = RpcLogger<RpcService>> {
 	/// When the client is dropped a message is sent to the background thread.
 	on_exit: Option<oneshot::Sender<()>>,
 	service: L,
-	/// Handle to the request manager shared with the background tasks.
+	/// Weak handle to the request manager shared with the background tasks.
 	#[cfg(feature = "verif-hooks")]
-	verif_manager: ThreadSafeRequestManager,
+	verif_manager: std::sync::Weak<std::sync::Mutex<RequestManager>>,
 }
 
 impl Client<Identity> {
@@ -499,7 +501,11 @@ impl<L> Client<L> {
 	#[cfg(feature = "verif-hooks")]
 	#[doc(hidden)]
 	pub fn verif_table_sizes(&self) -> [usize; 4] {
-		self.verif_manager.lock().verif_table_sizes()
+		match self.verif_manager.upgrade() {
+			Some(m) => m.lock().expect(NOT_POISONED).verif_table_sizes(),
+			// The background tasks are gone and the manager with them.
+			None => [0; 4],
+		}
 	}
 }
 
